@@ -307,7 +307,21 @@ def add_delay_ensures(c):
 
 from .lib import eb_det_off  # noqa: E402
 
+def mod_of_multiple(cl, q):
+    """instance of the arithmetic lemma  c >= 1  =>  (c*q) % c == 0"""
+    return z3.Implies(cl >= 1, (cl * q) % cl == 0)
+
+
+def _mom_build():
+    cl = z3.Int("c!mom")
+    return [("c>=1", cl >= 1)], Q([I], lambda q: (z3.BoolVal(True), (cl * q) % cl == 0)), lambda q: []
+
+
+from pyvc.contracts import lemma as _lemma  # noqa: E402
+_lemma("A-mod-of-multiple", _mom_build, "a multiple of c has remainder 0 (pure arithmetic, discharged standalone so that no in-context nonlinear reasoning is needed)")
+
 contract(SF, "_Schedule.add_delay", props=("C01", "C02", "C09"),
+         lemmas=lambda c: [("A-mod-of-multiple", mod_of_multiple(clock(cs_chan(S(c))), QF(clock(cs_chan(S(c))), T(c.duration))))],
          params={"self": ("ref", "_Schedule"), "duration": "int", "channel": "str"},
          requires=writer_requires,
          ensures=add_delay_ensures,
